@@ -488,7 +488,7 @@ func (s *Session) Start(idx int) {
 		s.mu.Unlock()
 		close(ready)
 		r, err := s.T.ExchangeContext(ctx, qb)
-		tag := -1
+		tag := 888888 // a reply whose question is not one the fake server writes
 		if err == nil && r != nil {
 			m := new(dns.Msg)
 			if m.Unpack(*r) == nil && len(m.Question) == 1 {
